@@ -231,6 +231,13 @@ structure TxnDrv where
   pend : List (Nat × String × Option String) := []
   /-- fingerprint → key -/
   keys : List (Nat × String) := []
+  /-- `reset <detect> 2`: an on-disk DB in normal mode with the pipeline ops `block`/`unblock`/
+      `hold`/`release` -/
+  pipe : Bool := false
+  /-- `blockWrite()` is in force: `sendToWriteCh` answers `ErrBlockedWrites` -/
+  blocked : Bool := false
+  /-- the commit (tid, ts) parked in the write pipeline (timestamp handed out, nothing applied) -/
+  held : Option (Nat × Nat) := none
 
 def keyFp (k : String) : Nat :=
   match fromHex k with
@@ -268,11 +275,66 @@ def valStr (v : Option String) : String :=
   | some v => s!"v={v}"
   | none => "nf"
 
+/-- An op addressed to a transaction whose `NewTransaction` has not returned yet. -/
+def onParked (s : Sys) (ws : List String) : Bool :=
+  match ws with
+  | op :: tid :: _ =>
+    ["get", "set", "del", "iter", "commit", "discard", "hold"].contains op &&
+    (match (natArg tid).bind (fun t => s.txns[t]?) with
+     | some x => x.phase == .parked
+     | none => false)
+  | _ => false
+
 def txnStep (d : TxnDrv) (line : String) : TxnDrv × String :=
   let s := d.sys
   let fin (res : String) (d' : TxnDrv) : TxnDrv × String :=
     (d', s!"{res} {dumpStr d'.keyStr d'.sys}")
+  if onParked s (words line) then fin "blocked" d else
   match words line with
+  | ["block"] =>
+    if !d.pipe || d.held.isSome || d.blocked then fin "skip" d else fin "ok" { d with blocked := true }
+  | ["unblock"] =>
+    if !d.pipe || !d.blocked then fin "skip" d else fin "ok" { d with blocked := false }
+  | ["hold", tid] =>
+    match natArg tid with
+    | some tid =>
+      if !d.pipe || d.held.isSome || d.blocked then fin "skip" d else
+      match s.txns[tid]? with
+      | some x =>
+        if x.phase ≠ .active then fin "err=discarded" d else
+        if !(x.t.update && x.t.hasWrites) then fin "skip" d else
+        match stepDrain s (.commit tid) with
+        | some s1 =>
+          match (s1.txns[tid]?).bind (·.committedAt) with
+          | some ts =>
+            -- timestamp handed out; the request sits in the pipeline, nothing is applied
+            let s2 := (stepDrain s1 .cleanup).getD s1
+            fin s!"held ts={ts}" { d with sys := s2, held := some (tid, ts) }
+          | none =>
+            let s2 := (stepDrain s1 (.discard tid)).getD s1
+            let s3 := (stepDrain s2 .cleanup).getD s2
+            fin "conflict" { d with sys := s3 }
+        | none => fin "skip" d
+      | none => fin "skip" d
+    | none => (d, "bad-op")
+  | ["release"] =>
+    match d.held with
+    | some (tid, ts) =>
+      -- the batch is applied, the request signalled, `doneCommit(ts)`, `Commit` returns
+      let mine := d.pend.filter (fun e => e.1 == tid)
+      let ks := dedup (mine.map (·.2.1))
+      let newVs := ks.filterMap (fun k => (pendGet d.pend tid k).map (fun v => (k, ts, v)))
+      let s1 := (stepDrain s (.doneCommit ts)).getD s
+      let s2 := (stepDrain s1 .cleanup).getD s1
+      fin s!"ok ts={ts} woke={wokeTxnStr s.txns s2.txns}"
+        { d with sys := s2, store := d.store ++ newVs, held := none }
+    | none => fin "skip" d
+  | ["reset", det, "2"] =>
+    match boolArg det with
+    | some det =>
+      let d' : TxnDrv := { sys := (sysDrain (Sys.opened false det 0)).1, pipe := true }
+      fin "ok" d'
+    | none => (d, "bad-op")
   | ["reset", det] =>
     match boolArg det with
     | some det =>
@@ -412,7 +474,7 @@ def txnStep (d : TxnDrv) (line : String) : TxnDrv × String :=
   | ["commit", tid] =>
     match natArg tid with
     | some tid =>
-      if s.o.isManaged then fin "skip" d else
+      if s.o.isManaged || d.held.isSome then fin "skip" d else
       match s.txns[tid]? with
       | some x =>
         if x.phase ≠ .active then fin "err=discarded" d else
@@ -426,6 +488,13 @@ def txnStep (d : TxnDrv) (line : String) : TxnDrv × String :=
         | some s1 =>
           match (s1.txns[tid]?).bind (·.committedAt) with
           | some ts =>
+            if d.blocked then
+              -- `sendToWriteCh` answers ErrBlockedWrites: the timestamp is consumed
+              -- (`doneCommit(ts)`), nothing is written; the entry stays in `committedTxns` (F11)
+              let s2 := (stepDrain s1 (.doneCommit ts)).getD s1
+              let s3 := (stepDrain s2 .cleanup).getD s2
+              fin "blocked-writes" { d with sys := s3 }
+            else
             -- the write pipeline applies the batch, then `doneCommit(ts)`; `Commit` returns
             let mine := d.pend.filter (fun e => e.1 == tid)
             let ks := dedup (mine.map (·.2.1))
